@@ -27,11 +27,11 @@ VARIABLES hist,   \* sequence of scenario items
 
 gvars == <<hist, mode, pa, pb, gate>>
 
-AllGates == {"envman.create.snapshot", "envman.create.registered", "task.lock",
+AllGates == {"envman.create.snapshot", "envman.create.registered", "task.lock", "task.roster.appended",
              "td.left", "td.released1", "td.destroyhooks", "td.released2", "td.done",
              "task.kill.send", "env.lock.acquired"}
 GatesOf(kind) ==
-  CASE kind = "create" -> {"envman.create.snapshot", "envman.create.registered", "task.lock"}
+  CASE kind = "create" -> {"envman.create.snapshot", "envman.create.registered", "task.lock", "task.roster.appended"}
     [] kind = "destroy" -> {"td.left", "td.released1", "td.destroyhooks", "td.released2", "td.done", "task.kill.send"}
     [] kind = "control" -> {"env.lock.acquired"}
     [] kind = "cleanup" -> {"task.kill.send"}
@@ -104,13 +104,14 @@ G_CDeployLock(e) == CDeployLock(e) /\ Free(CProc(e)) /\ Same
 G_Claim(e, t) == Claim(e, t) /\ Free(CProc(e)) /\ Same
 G_LaunchSet(e, M) == LaunchSet(e, M) /\ Free(CProc(e)) /\ Same
 G_Lock(e, t) == Lock(e, t) /\ Step(CProc(e), "task.lock")
-G_RosterAppend(e, t) == RosterAppend(e, t) /\ Free(CProc(e)) /\ Same
+G_RosterAppend(e, t) == RosterAppend(e, t) /\ Step(CProc(e), "task.roster.appended")
 G_LockReused(e, t) == LockReused(e, t) /\ Free(CProc(e)) /\ Same
 G_AcqCrash(e) == AcqCrash(e) /\ Free(CProc(e)) /\ Same
 G_AcqRetry(e) == AcqRetry(e) /\ Free(CProc(e)) /\ Same
 G_CDeployEnd(e, ok) == CDeployEnd(e, ok) /\ Free(CProc(e)) /\ Same
 G_CConfigure(e, ok) == CConfigure(e, ok) /\ Free(CProc(e)) /\ Same
 G_CReplyOk(e) == CReplyOk(e) /\ Free(CProc(e)) /\ Same
+G_CLookup(e) == CLookup(e) /\ Free(CProc(e)) /\ Same
 G_CReplyGone(e) == CReplyGone(e) /\ Free(CProc(e)) /\ Same
 G_CTailGoError(e, ok) == CTailGoError(e, ok) /\ Free(CProc(e)) /\ Same
 G_CReplyErr(e) == CReplyErr(e) /\ Free(CProc(e)) /\ Same
@@ -128,6 +129,7 @@ G_TdDelete(e) == TdDelete(e) /\ Free(TdProc(e)) /\ Same
 G_DPre(e, op, ok) == DPre(e, op, ok) /\ Free(DProc(e)) /\ Same
 G_DPlan(e) == DPlan(e) /\ Free(DProc(e)) /\ Same
 G_DGoTd(e) == DGoTd(e) /\ Free(DProc(e)) /\ Same
+G_DLookup(e) == DLookup(e) /\ Free(DProc(e)) /\ Same
 G_DTdNotFound(e) == DTdNotFound(e) /\ Free(DProc(e)) /\ Same
 G_DReply(e) == DReply(e) /\ Free(DProc(e)) /\ Same
 G_XTrans(e, ok) == XTrans(e, ok) /\ Free(XProc(e)) /\ Same
@@ -161,18 +163,18 @@ InternalSteps ==
        \/ OneOf({t \in TaskIds : ENABLED Claim(e, t)}, LAMBDA t : G_Claim(e, t))
        \/ LET R == Launchable(e) \ RolesLaunchedNow(e) IN
             apc[e] = "acq" /\ R # {} /\ Cardinality(FreeIds) >= Cardinality(R) /\ G_LaunchSet(e, Assign(R, FreeIds))
-       \/ OneOf({t \in cur[e] : owner[t] = None /\ ~inRoster[t]}, LAMBDA t : G_Lock(e, t))
-       \/ OneOf({t \in cur[e] : ~inRoster[t]}, LAMBDA t : G_RosterAppend(e, t))
+       \/ OneOf({t \in cur[e] : owner[t] = None /\ ~appended[t]}, LAMBDA t : G_Lock(e, t))
+       \/ OneOf({t \in cur[e] : ~appended[t]}, LAMBDA t : G_RosterAppend(e, t))
        \/ OneOf(claimed[e], LAMBDA t : G_LockReused(e, t))
        \/ OneOf({t \in relq[e] : owner[t] \in {e, None}}, LAMBDA t : G_Unlock(e, t))
        \/ G_AcqRetry(e)
        \/ \E ok \in BOOLEAN : G_CDeployEnd(e, ok) \/ G_CConfigure(e, ok) \/ G_CTailGoError(e, ok) \/ G_XTrans(e, ok) \/ G_XGoError(e, ok)
-       \/ G_CReplyOk(e) \/ G_CReplyErr(e) \/ G_CReplyGone(e)
+       \/ G_CReplyOk(e) \/ G_CReplyErr(e) \/ G_CReplyGone(e) \/ G_CLookup(e)
        \/ \E who \in {"c", "d"} : G_TdLock(e, who)
        \/ G_TdRefuse(e) \/ G_TdLeft(e) \/ G_TdReleased1(e) \/ G_TdRelError(e) \/ G_TdCancel(e) \/ G_TdReleased2(e) \/ G_TdDone(e) \/ G_TdDelete(e)
        \/ LET ht == TasksOfRoles(e, HookTaskRoles(e)) IN G_TdHooks(e, {t \in ht : running[t] /\ alive[t]})
        \/ \E op \in {"STOP_ACTIVITY", "RESET"}, ok \in BOOLEAN : G_DPre(e, op, ok)
-       \/ G_DPlan(e) \/ G_DGoTd(e) \/ G_DTdNotFound(e) \/ G_DReply(e)
+       \/ G_DPlan(e) \/ G_DGoTd(e) \/ G_DLookup(e) \/ G_DTdNotFound(e) \/ G_DReply(e)
        \/ G_XForce(e) \/ G_XReply(e)
   \/ G_CleanupReply
   \/ \E t \in TaskIds : G_TaskRunning(t) \/ G_TaskGone(t)
